@@ -21,6 +21,13 @@
 (*              "info": a directory named info.  A command that cannot      *)
 (*              write must not exit 0.  Harness action, not in the MC       *)
 (*              alphabet.                                                   *)
+(*   Damage     ENVIRONMENT: one chunk file of the FIRST scale of d is        *)
+(*              removed or truncated (m = "remove" | "truncate"): the scale *)
+(*              is no longer completely readable.  Likewise a Convert with  *)
+(*              m = "srcfault" meets a source whose server fails the first  *)
+(*              chunk request once.  A conversion that cannot read a source *)
+(*              chunk must not exit 0.  Harness actions, not in the MC      *)
+(*              alphabet.                                                   *)
 (*   HandInfo   the user writes d/info_fullres.json by hand (script-usage   *)
 (*              step 1: there is no --generate-info for slice stacks); no   *)
 (*              transform.json.  Performed by the harness, not a tool.      *)
@@ -195,15 +202,20 @@ RunConvert(c, D) ==
   ELSE IF c.copy = "keep" /\ t.info.n = 0 THEN Res(D, 1)
   ELSE
     LET di == IF c.copy = "copy" THEN s.info ELSE t.info
-        ok(i) == i <= s.info.n /\ Readable(s, i) /\ i \notin t.blocked
+        ok(i) == i <= s.info.n /\ Readable(s, i) /\ i \notin t.blocked /\ c.m # "srcfault"
         bad == {i \in 1..di.n : ~ok(i)}
         \* scales are walked coarsest first; the walk stops at the first bad one
         stop == IF bad = {} THEN 0 ELSE CHOOSE i \in bad : \A j \in bad : j <= i
         done == {i \in 1..di.n : i > stop}
         mislaid == c.copy = "copy" /\ CopyInfoLayout = "byOptions" /\ di.sh # "nosh"
+        \* a source scale that is stored but not completely readable (damaged chunk file): the
+        \* chunks before the damaged one are converted - the destination scale is left incomplete
+        part == IF stop >= 1 /\ stop <= s.info.n /\ s.chunks[stop] # "absent" /\ stop \in s.mis
+                   /\ stop \notin t.blocked /\ c.m # "srcfault" /\ ~mislaid
+                THEN {stop} ELSE {}
     IN Res([D EXCEPT ![c.d].info = di,
-                     ![c.d].chunks = [i \in Scales |-> IF i \in done THEN s.chunks[i] ELSE t.chunks[i]],
-                     ![c.d].mis = IF mislaid THEN @ \cup done ELSE @ \ done],
+                     ![c.d].chunks = [i \in Scales |-> IF i \in done \cup part THEN s.chunks[i] ELSE t.chunks[i]],
+                     ![c.d].mis = IF mislaid THEN @ \cup done ELSE (@ \ done) \cup part],
            IF bad = {} THEN 0 ELSE 1)
 
 RunStats(c, D) == IF D[c.d].info.n = 0 THEN Res(D, 1) ELSE Res(D, 0)
@@ -245,6 +257,8 @@ Run(c, D, cf) ==
     [] c.op = "Slices"    -> RunSlices(c, D)
     [] c.op = "HandInfo"  -> RunHandInfo(c, D)
     [] c.op = "Obstruct"  -> RunObstruct(c, D)
+    [] c.op = "Damage"    -> IF D[c.d].info.n = 0 \/ D[c.d].chunks[1] = "absent" THEN Res(D, 1)
+                             ELSE Res([D EXCEPT ![c.d].mis = @ \cup {1}], 0)
     [] c.op = "Rechunk"   -> IF D[c.d].info.n = 0 \/ D[c.d].info.sh # "nosh" THEN Res(D, 1) ELSE Res(D, 0)
 
 Succ(e) == e = 0
@@ -324,6 +338,7 @@ Complete(c, D) ==
     [] c.op = "Slices"    -> ds.info.n # 0 /\ Readable(ds, 1)
     [] c.op = "HandInfo"  -> ds.fullres # "absent"
     [] c.op = "Obstruct"  -> TRUE
+    [] c.op = "Damage"    -> TRUE
     [] c.op = "Rechunk"   -> ds.info.n # 0
 
 SuccessMeansComplete ==
